@@ -227,104 +227,107 @@ func runC03(c *core.Ctx) {
 	}
 
 	// 4. version tie-break reads the rows whose timestamps were found equal
-	{
-		rule := "c03.version-index-agreement"
-		elemOf := func(v ssa.Value, field string) (string, bool) {
-			u, ok := v.(*ssa.UnOp)
-			if !ok || u.Op != token.MUL {
-				return "", false
-			}
-			ia, ok := u.X.(*ssa.IndexAddr)
-			if !ok {
-				return "", false
-			}
-			var fld ssa.Value
-			if l, ok := ia.X.(*ssa.UnOp); ok && l.Op == token.MUL {
-				fld = l.X
-			} else {
-				fld = ia.X
-			}
-			if fv := ssax.FieldOf(fld); fv == nil || fv.Name() != field {
-				return "", false
-			}
-			return ssax.Canon(ia), true
+	versionIndexAgreement(r, "c03.version-index-agreement")
+}
+
+// versionIndexAgreement: wherever two rows' versions are compared under a dominating equality of two
+// timestamps elements, the versions are read at exactly the (base, index) pairs of those timestamps.
+func versionIndexAgreement(r *R, rule string) {
+	elemOf := func(v ssa.Value, field string) (string, bool) {
+		u, ok := v.(*ssa.UnOp)
+		if !ok || u.Op != token.MUL {
+			return "", false
 		}
-		pairOf := func(v ssa.Value, field string) ([2]string, bool) {
-			bo, ok := v.(*ssa.BinOp)
-			if !ok {
-				return [2]string{}, false
-			}
-			a, ok1 := elemOf(bo.X, field)
-			b, ok2 := elemOf(bo.Y, field)
-			if !ok1 || !ok2 {
-				return [2]string{}, false
-			}
-			if b < a {
-				a, b = b, a
-			}
-			return [2]string{a, b}, true
+		ia, ok := u.X.(*ssa.IndexAddr)
+		if !ok {
+			return "", false
 		}
-		for _, f := range r.P.ModuleFuncs(sibM.pkg, sibS.pkg, sibT.pkg, sibX.pkg) {
-			for _, b := range f.Blocks {
-				for _, in := range b.Instrs {
-					bo, ok := in.(*ssa.BinOp)
+		var fld ssa.Value
+		if l, ok := ia.X.(*ssa.UnOp); ok && l.Op == token.MUL {
+			fld = l.X
+		} else {
+			fld = ia.X
+		}
+		if fv := ssax.FieldOf(fld); fv == nil || fv.Name() != field {
+			return "", false
+		}
+		return ssax.Canon(ia), true
+	}
+	pairOf := func(v ssa.Value, field string) ([2]string, bool) {
+		bo, ok := v.(*ssa.BinOp)
+		if !ok {
+			return [2]string{}, false
+		}
+		a, ok1 := elemOf(bo.X, field)
+		b, ok2 := elemOf(bo.Y, field)
+		if !ok1 || !ok2 {
+			return [2]string{}, false
+		}
+		if b < a {
+			a, b = b, a
+		}
+		return [2]string{a, b}, true
+	}
+	for _, f := range r.P.ModuleFuncs(sibM.pkg, sibS.pkg, sibT.pkg, sibX.pkg) {
+		for _, b := range f.Blocks {
+			for _, in := range b.Instrs {
+				bo, ok := in.(*ssa.BinOp)
+				if !ok {
+					continue
+				}
+				switch bo.Op {
+				case token.LSS, token.GTR, token.LEQ, token.GEQ:
+				default:
+					continue
+				}
+				vp, ok := pairOf(bo, "versions")
+				if !ok {
+					continue
+				}
+				// dominating equality of two timestamps elements
+				var doms [][2]string
+				for _, gb := range f.Blocks {
+					gif, ok := gb.Instrs[len(gb.Instrs)-1].(*ssa.If)
 					if !ok {
 						continue
 					}
-					switch bo.Op {
-					case token.LSS, token.GTR, token.LEQ, token.GEQ:
-					default:
+					gc, ok := gif.Cond.(*ssa.BinOp)
+					if !ok || gc.Op != token.EQL && gc.Op != token.NEQ {
 						continue
 					}
-					vp, ok := pairOf(bo, "versions")
+					tp, ok := pairOf(gc, "timestamps")
 					if !ok {
 						continue
 					}
-					// dominating equality of two timestamps elements
-					var doms [][2]string
-					for _, gb := range f.Blocks {
-						gif, ok := gb.Instrs[len(gb.Instrs)-1].(*ssa.If)
-						if !ok {
-							continue
-						}
-						gc, ok := gif.Cond.(*ssa.BinOp)
-						if !ok || gc.Op != token.EQL && gc.Op != token.NEQ {
-							continue
-						}
-						tp, ok := pairOf(gc, "timestamps")
-						if !ok {
-							continue
-						}
-						eq := gb.Succs[0]
-						if gc.Op == token.NEQ {
-							eq = gb.Succs[1]
-						}
-						if len(eq.Preds) == 1 && (eq == b || eq.Dominates(b)) {
-							doms = append(doms, tp)
-						}
+					eq := gb.Succs[0]
+					if gc.Op == token.NEQ {
+						eq = gb.Succs[1]
 					}
-					if len(doms) == 0 {
-						continue
+					if len(eq.Preds) == 1 && (eq == b || eq.Dominates(b)) {
+						doms = append(doms, tp)
 					}
-					construct := ssax.FuncName(f) + ": versions compared at the indices whose timestamps were found equal"
-					want := [2]string{strings.ReplaceAll(vp[0], ".versions", ".timestamps"), strings.ReplaceAll(vp[1], ".versions", ".timestamps")}
-					if want[1] < want[0] {
-						want[0], want[1] = want[1], want[0]
+				}
+				if len(doms) == 0 {
+					continue
+				}
+				construct := ssax.FuncName(f) + ": versions compared at the indices whose timestamps were found equal"
+				want := [2]string{strings.ReplaceAll(vp[0], ".versions", ".timestamps"), strings.ReplaceAll(vp[1], ".versions", ".timestamps")}
+				if want[1] < want[0] {
+					want[0], want[1] = want[1], want[0]
+				}
+				match := false
+				for _, d := range doms {
+					if d == want {
+						match = true
 					}
-					match := false
-					for _, d := range doms {
-						if d == want {
-							match = true
-						}
-					}
-					if match {
-						r.Hold(rule, construct, r.pos(in), want[0]+" == "+want[1])
-					} else {
-						r.Violate(rule, construct, r.pos(in), fmt.Sprintf("the tie-break compares %s with %s, but the rows found to share a timestamp are %s and %s: another row's version decides which duplicate survives the merge", vp[0], vp[1], doms[0][0], doms[0][1]))
-					}
+				}
+				if match {
+					r.Hold(rule, construct, r.pos(in), want[0]+" == "+want[1])
+				} else {
+					r.Violate(rule, construct, r.pos(in), fmt.Sprintf("the tie-break compares %s with %s, but the rows found to share a timestamp are %s and %s: another row's version decides which duplicate survives the merge", vp[0], vp[1], doms[0][0], doms[0][1]))
 				}
 			}
 		}
-		r.Floor(rule, 3)
 	}
+	r.Floor(rule, 3)
 }
